@@ -56,6 +56,9 @@ def run(ctx: Ctx):
     exceptions(ctx)
     collator(ctx)
     accidental_fallback(ctx)
+    from .common import generic_lints
+
+    generic_lints(ctx)
 
 
 def _dict_in(fn: ast.FunctionDef, name: Optional[str] = None) -> Optional[ast.Dict]:
